@@ -20,7 +20,7 @@ Proof. exact (exactly_once ob_flags). Qed.
 Print Assumptions T13_exactly_once.
 
 (* No completion report without a request (read error, or shutdown right after reading). *)
-Theorem T13_nothing_without_request : forall v, active v = false -> count is_wrote (run v) = 0%nat.
+Theorem T13_nothing_without_request : forall v, idle v = true -> count is_wrote (run v) = 0%nat.
 Proof. exact (nothing_without_request ob_flags). Qed.
 Print Assumptions T13_nothing_without_request.
 
@@ -31,6 +31,14 @@ Theorem T13_exactly_once_refuted_for_old_shapes :
   exch_okb (Build_flags true true false) v_upgrade_from_closing_request = false.
 Proof. exact (conj exch_not_ok_without_defer (conj exch_not_ok_without_rebind exch_not_ok_without_upgrade_keep)). Qed.
 Print Assumptions T13_exactly_once_refuted_for_old_shapes.
+
+(* Outside the statement (a shutdown began during the exchange), kept visible: a CONNECT whose dial
+   completes after Shutdown was called is answered "200 ... Connection: close", the tunnel is not
+   started and the completion is never reported. *)
+Theorem T13_exactly_once_refuted_during_shutdown :
+  count is_wrote (run_with good_flags v_connect_during_shutdown) = 0%nat.
+Proof. exact shutdown_leaks_tunnel_report. Qed.
+Print Assumptions T13_exactly_once_refuted_during_shutdown.
 
 (* In-flight gauge (the Prometheus model that is also run on the implementation's
    traces): after ANY sequence of exchanges, for EVERY method label, it is zero. *)
@@ -90,7 +98,7 @@ Print Assumptions T13_active_zero.
 
 (* Non-vacuity: a concrete exchange (CONNECT tunnel) and a concrete 3-way concurrent close. *)
 Example T13_example :
-  let v := Build_val RdOk false true false false RtOk St2xx false false CnOk WOk false false AfPlain in
+  let v := Build_val RdOk false true false false RtOk St2xx false false CnOk WOk false false AfPlain false in
   active v = true /\
   run v = [ERead true; EModReq; EDial; EModRes SConnOK; EHead SConnOK; EBodyEnd; ETunnel; EWrote SConnOK LOwn false; EClose] /\
   crun close_uses_once close_returns_early_on_errclosed (cinit 3 true) (csched_seq 3) = Some (mkcst 0 0 0 0 3 true 1 3 true).
